@@ -241,7 +241,9 @@ func (m *model) beginBlock() {
 // applyTx feeds one delivered transaction (and its result code) to the model.
 func (m *model) applyTx(o op, x ext, name string, signer string, code uint32) {
 	acc := code == 0
-	m.lastOp = o.Kind
+	if o.Kind != "report" || m.lastOp == "none" {
+		m.lastOp = o.Kind // the block's submission if it has one, else its (first) report
+	}
 	if acc {
 		m.count("accepted." + o.Kind)
 	} else {
